@@ -1,8 +1,10 @@
 package graph
 
 import (
+	"cmp"
 	"errors"
 	"fmt"
+	"slices"
 
 	"gonum.org/v1/gonum/graph"
 	"gonum.org/v1/gonum/graph/encoding"
@@ -69,6 +71,7 @@ func (g *AuthorizationModelGraph) Reversed() (*AuthorizationModelGraph, error) {
 	}
 
 	// Add all edges as-is, but with their From and To flipped.
+	allLines := make([]*AuthorizationModelEdge, 0)
 	iterEdges := g.Edges()
 	for iterEdges.Next() {
 		nextEdge, ok := iterEdges.Edge().(multi.Edge)
@@ -83,8 +86,16 @@ func (g *AuthorizationModelGraph) Reversed() (*AuthorizationModelGraph, error) {
 			if !ok {
 				return nil, fmt.Errorf("%w: could not cast to AuthorizationModelEdge", ErrBuildingGraph)
 			}
-			graphBuilder.AddEdge(nextLine.To(), nextLine.From(), casted.edgeType, casted.tuplesetRelation, casted.conditions)
+			allLines = append(allLines, casted)
 		}
+	}
+
+	// Re-add the lines in the order they were created: the iteration above follows map order, and the
+	// ids of the new lines (which order the DOT output) must not depend on it.
+	slices.SortFunc(allLines, func(a, b *AuthorizationModelEdge) int { return cmp.Compare(a.ID(), b.ID()) })
+
+	for _, line := range allLines {
+		graphBuilder.AddEdge(line.To(), line.From(), line.edgeType, line.tuplesetRelation, line.conditions)
 	}
 
 	// Make a brand new copy of the map.
